@@ -72,15 +72,16 @@ func via(v string) string {
 }
 
 type scenario struct {
-	Name      string
-	Upgrades  string // "" | "local" | "remote-ok" | "remote-4xx" | "remote-unreachable" | "remote-stall"
-	Hooks     string // "" | "fast" | "fail" | "hang"
-	CapLimit  int    // 0 = true capacities
-	Default   uint
-	Users     []userSpec
-	Clients   [][]cop
-	Policy    string // policy condition ("" = none)
-	Linearize bool   // the oracle judges histories: real-time precedence is part of the state key
+	Name            string
+	Upgrades        string // "" | "local" | "remote-ok" | "remote-4xx" | "remote-unreachable" | "remote-stall"
+	Hooks           string // "" | "fast" | "fail" | "hang"
+	CapLimit        int    // 0 = true capacities
+	Default         uint
+	Users           []userSpec
+	Clients         [][]cop
+	Policy          string // policy condition ("" = none)
+	NoUpgradeEffect bool   // (informational) logins only
+	Linearize       bool   // the oracle judges histories: real-time precedence is part of the state key
 	// alternative configurations for reload scenarios (index 0 = initial)
 	Cfgs []cfgSpec
 }
@@ -239,6 +240,10 @@ func (w *world) installCfg(i int) {
 		must(os.WriteFile(w.cfgFile, []byte(verifx.CheapConfigYAML(dir, c.Default)), 0600))
 	case "unparsable":
 		must(os.WriteFile(w.cfgFile, []byte("basedir: "+dir+"\ndefault: 1\nparams: [ {id: 1, bogus: 3} ]\n"), 0600))
+	case "samedir-sets-removed":
+		// same base directory, well-formed, but only parameter set 2 is defined: every record of
+		// the directory (all under set 1) becomes unsupported, so the consistency check fails
+		must(os.WriteFile(w.cfgFile, []byte(verifx.CheapConfigYAMLOnly(w.dirA, 2, []uint{2})), 0600))
 	case "badcheck":
 		empty := filepath.Join(w.root, "empty")
 		os.MkdirAll(empty, 0700) //nolint:errcheck
